@@ -111,11 +111,11 @@ def merge(k00: int, k01: int, k02: int, k03: int, k10: int, k11: int, k12: int, 
     if "fu" in SEL and fu != SEL["fu"]:
         return True
     reach()
-    with untraced():
-        return merge_check(C, uni, kinds, n, fu)
+    return P_.native_call("vt.harness.c05", "merge_check", SEL.get("cls", "ih5"), uni, kinds, n, fu)
 
 
-def merge_check(C, uni, kinds, n, fu):
+def merge_check(cname, uni, kinds, n, fu):
+    C = CLS[cname]
     names = fs_record(uni, kinds, n)
     try:
         T = fold([fakeh5.FS[x].root for x in names])
